@@ -1,8 +1,8 @@
 package sim
 
 import (
-	"runtime/debug"
 	"fmt"
+	"runtime/debug"
 	"sort"
 	"time"
 
